@@ -252,7 +252,7 @@ func c07alias(p *Program, r *Report, rule string) {
 			r.UseFunc(fname)
 			// terminal: the function acquires the lock by forceLock and never releases it
 			terminal := false
-			for _, b := range fn.Blocks {
+			for _, b := range p.blocksOf(fn) {
 				for _, in := range b.Instrs {
 					if c, ok := in.(*ssa.Call); ok {
 						if f, ok := c.Call.Value.(*ssa.Function); ok && p.anyFuncName(f) == "mu.forceLock" && la.lockKey(c.Call.Args[0]) == o.lock {
